@@ -12,6 +12,12 @@ Requests:
   sort <seq>                 `sort`
   sorton <fn> <seq>          `sort_on(seq, fn)`, fn from the `keyFn` table
   sortby <cmp> <seq>         `sort(seq, cmp)`, cmp from the `cmpFn` table
+  call <op> <list>           `op(x1, …, xn)` / `op(...xs)` with 0..n operands
+  chain <op,op,…> <list>     infix chain `x1 op x2 op …`
+  sortedeq <seq>             `sort(xs) == xs`
+  extfold|cata min|max <list>   `xs fold max`, `a max b`, `x max= y` / `for (…) yield e into max`
+  extby min|max <cmp> <list> `max(xs, comparator)`
+  catad min|max <list of [k,v]>  `for (…) yield k: v into max`
   nmin|nmax <a> <b>          `NNum::min` / `NNum::max` (Rust API)
   teq <a> <b>                `NNum::total_eq`
 Response: `<impl>\t<spec>\t<diagnostics>`. -/
@@ -212,6 +218,34 @@ end
 
 def renderOut (r : Out Val) : String := r.render renderVal
 
+/-- Spec of the call / chain forms: the conjunction of the Spec's operator over neighbouring pairs -/
+def specAccept (op : String) (a b : Val) : Out Bool :=
+  match op with
+  | "==" => .ok (OrdSpec.eq a b)
+  | "!=" => .ok (!OrdSpec.eq a b)
+  | "<" => (OrdSpec.ncmp a b).map fun o => o == .lt
+  | ">" => (OrdSpec.ncmp a b).map fun o => o == .gt
+  | "<=" => (OrdSpec.ncmp a b).map fun o => o == .lt || o == .eq
+  | ">=" => (OrdSpec.ncmp a b).map fun o => o == .gt || o == .eq
+  | _ => .throw
+def specChain : List String → List Val → Out Bool
+  | op :: ops, a :: b :: rest =>
+    match specAccept op a b with
+    | .ok true => specChain ops (b :: rest)
+    | .ok false => .ok false
+    | .throw => .throw
+    | .panic => .panic
+  | _, _ => .ok true
+def specCall (op : String) (args : List Val) : Out Val :=
+  match args with
+  | [] => .throw
+  | [_] => .ok (.func 0)
+  | _ => (specChain (List.replicate args.length op) args).map ofBool
+def pairList : List Val → Option (List (Val × Val))
+  | [] => some []
+  | .list [k, v] :: rest => (pairList rest).map fun r => (k, v) :: r
+  | _ => none
+
 def handle (args : List String) : String :=
   match args with
   | ["op", op, a, b] =>
@@ -237,6 +271,50 @@ def handle (args : List String) : String :=
     | some v => renderOut (sortByVal ncmp (cmpFn ncmp cname) v) ++ "\t" ++
         renderOut (sortByVal OrdSpec.ncmp (cmpFn OrdSpec.ncmp cname) v) ++ "\t-"
     | none => "bad-op"
+  | ["call", op, l] =>
+    match parseVal l with
+    | some (.list xs) => renderOut (cmpCall op xs) ++ "\t" ++ renderOut (specCall op xs) ++ "\t-"
+    | _ => "bad-op"
+  | ["chain", ops, l] =>
+    match parseVal l with
+    | some (.list xs) =>
+      let os := ops.splitOn ","
+      renderOut ((cmpChain os xs).map ofBool) ++ "\t" ++ renderOut ((specChain os xs).map ofBool) ++ "\t-"
+    | _ => "bad-op"
+  | ["sortedeq", l] =>
+    match parseVal l with
+    | some v => renderOut ((sortVal v).map fun r => ofBool (valEq r v)) ++ "\t" ++
+        renderOut ((OrdSpec.sortVal v).map fun r => ofBool (OrdSpec.eq r v)) ++ "\t-"
+    | none => "bad-op"
+  | ["extfold", which, l] =>
+    match parseVal l with
+    | some (.list xs) =>
+      let bias : Ordering := if which == "min" then .lt else .gt
+      renderOut (foldExtremum bias xs) ++ "\t" ++ renderOut (OrdSpec.extremum bias xs) ++ "\t-"
+    | _ => "bad-op"
+  | ["cata", which, l] =>
+    match parseVal l with
+    | some (.list xs) =>
+      let bias : Ordering := if which == "min" then .lt else .gt
+      renderOut (extremum bias xs) ++ "\t" ++ renderOut (OrdSpec.extremum bias xs) ++ "\t-"
+    | _ => "bad-op"
+  | ["extby", which, cname, l] =>
+    match parseVal l with
+    | some (.list xs) =>
+      let bias : Ordering := if which == "min" then .lt else .gt
+      renderOut (extremumBy ncmp (cmpFn ncmp cname) bias xs) ++ "\t" ++
+        renderOut (extremumBy OrdSpec.ncmp (cmpFn OrdSpec.ncmp cname) bias xs) ++ "\t-"
+    | _ => "bad-op"
+  | ["catad", which, l] =>
+    match parseVal l with
+    | some (.list ps) =>
+      let bias : Ordering := if which == "min" then .lt else .gt
+      match pairList ps with
+      | some kvs =>
+        renderOut ((cataExtremumDict ncmp keyHit bias [] kvs).map fun r => .dict r none) ++ "\t" ++
+          renderOut ((cataExtremumDict OrdSpec.ncmp OrdSpec.keyEq bias [] kvs).map fun r => .dict r none) ++ "\t-"
+      | none => "bad-op"
+    | _ => "bad-op"
   | ["nmin", a, b] =>
     match parseVal a, parseVal b with
     | some (.num x), some (.num y) =>
